@@ -328,3 +328,12 @@ Proof.
       split; [exact Hwf|]. split; [|auto]. split; [exact Hk|]. rewrite Ec, Et. exists u. auto.
 Qed.
 
+
+(* ------------------------------------------------------------------ the same fact, read off the Go syntax tree
+   harness/cmd/dumpconsts/consts_c10_ast.go walks StreamUnderlay.readOneSegment and every package function
+   whose error result it hands on, and counts the `return ..., err` statements whose error is neither nil, nor a
+   stderror.Wrap.../New... call, nor a variable whose reaching assignments are of these kinds (or calls of
+   functions that pass the same check). The count is regenerated from /repo on every run. *)
+Lemma stream_read_returns_typed_in_source :
+  C10_StreamReadUntypedReturns = 0%Z /\ (0 < C10_StreamReadErrorReturns)%Z.
+Proof. split; reflexivity. Qed.
